@@ -374,3 +374,25 @@ uint8_t* fieldfit_good(uint8_t* op, size_t offset, size_t len) {
     }
     return op;
 }
+
+/* ---- R32 request fits: a reader is not asked for more than its buffer holds */
+typedef struct carquet_column_reader carquet_column_reader_t;
+long carquet_column_read_batch(carquet_column_reader_t* r, void* values, long max_values, int16_t* def, int16_t* rep);
+long request_bad(carquet_column_reader_t* r, long remaining, long batch) {
+    long rows = remaining;
+    if (rows > batch) rows = batch;
+    int32_t* buf = (int32_t*)malloc(sizeof(int32_t) * (size_t)rows);
+    if (!buf) return -1;
+    long got = carquet_column_read_batch(r, buf, batch, NULL, NULL);     /* rows < batch: the callee may store batch values */
+    free(buf);
+    return got;
+}
+long request_good(carquet_column_reader_t* r, long remaining, long batch) {
+    long rows = remaining;
+    if (rows > batch) rows = batch;
+    int32_t* buf = (int32_t*)malloc(sizeof(int32_t) * (size_t)rows);
+    if (!buf) return -1;
+    long got = carquet_column_read_batch(r, buf, rows, NULL, NULL);
+    free(buf);
+    return got;
+}
